@@ -24,8 +24,8 @@ RULE = ('Generated panels (2-6 geos quick / 2-7 thorough; 8-20 greedy-only) wher
 ASSUMPTIONS = ['series tolerance 1e-12 x number of geos (summation order); derived values 1e-7..1e-9 relative; '
                'test outcomes compared exactly unless within 1e-9 of flipping']
 EXHAUSTIVE = {'quick': False, 'thorough': False}
-MINIMA = {'quick': {'shared_data_searches': 40, 'designs_checked': 400, 'distinct_nontrivial': 50, 'truncated_window_cases': 30},
-          'thorough': {'shared_data_searches': 400, 'designs_checked': 6000, 'distinct_nontrivial': 600, 'truncated_window_cases': 400}}
+MINIMA = {'quick': {'searches_after_caller_edits': 80, 'referee_tests': 400, 'sig_level_below_half': 20, 'shared_data_searches': 40, 'designs_checked': 400, 'distinct_nontrivial': 50, 'truncated_window_cases': 30},
+          'thorough': {'searches_after_caller_edits': 800, 'referee_tests': 6000, 'sig_level_below_half': 200, 'shared_data_searches': 400, 'designs_checked': 6000, 'distinct_nontrivial': 600, 'truncated_window_cases': 400}}
 N = {'quick': 480, 'thorough': 4000}
 N_LARGE = {'quick': 16, 'thorough': 120}
 CASE_TIMEOUT = {'quick': 300, 'thorough': 900}
@@ -70,17 +70,27 @@ def run_case(spec):
   D = len(case['panel']['dates'])
   if r.random() < 0.5 and D > kw['n_test'] + 4:
     kw['n_pretest_max'] = r.randrange(kw['n_test'] + 3, D)
+  if spec['idx'] % 9 == 4:
+    # one-sided level below one half (legal): the A/A interval is stored as (higher, lower)
+    kw['sig_level'] = r.choice([0.3, 0.45, 0.2])
+    kw['power_level'] = 0.9
   truth = sl.Truth(case)
   counters = collections.Counter()
+  counters['sig_level_below_half'] += kw.get('sig_level', 0.9) < 0.5
   violations = []
   outcomes = []
   max_returned = 0
+  sp.INFO.clear()
   shuffled_index = False
   par = sl.shadow_params(case)
   shared = spec['idx'] % 4 == 1      # A.search -> B.search (same data object) -> A.search, last call judged
   for which in which_list:
-    rec = sl.run_search(case, which, interleave=(r if shared else None))
+    edits = spec['idx'] % 4 == 2      # earlier results (objects of their own) edited in place by the caller
+    rec = sl.run_search(case, which, interleave=(r if shared else None),
+                        scribble_prior=(['exhaustive', 'greedy'] if edits and spec['kind'] != 'large' else ['greedy'] if edits else None))
     counters['shared_data_searches'] += bool(rec.get('interleaved'))
+    counters['searches_after_caller_edits'] += bool(rec.get('scribbled'))
+    counters['containers_edited_by_caller'] += rec.get('scribbled', 0)
     if not rec['outcome'].ok or rec['designs'] is None:
       outcomes.append(sp.search_failed(rec, which) if not rec['outcome'].ok else which + ':unreadable')
       counters['search_raised'] += 1
@@ -98,6 +108,7 @@ def run_case(spec):
       shuffled_index = True
   if truth.n < D:
     counters['truncated_window_cases'] += 1
+  counters['referee_tests'] += sp.INFO.get('referee_tests', 0)
   desc = sl.describe(case, with_frame=False)
   return {'nontrivial': max_returned >= 2 and shuffled_index, 'fp': util.fp(desc), 'classes': [spec['kind']],
           'counters': dict(counters), 'outcome': ' '.join(outcomes), 'violations': violations[:10],
